@@ -167,7 +167,7 @@ func (c *controller) at(site string) {
 	}
 	c.mu.Lock()
 	defer c.mu.Unlock()
-	deadline := time.Now().Add(3 * time.Second)
+	deadline := time.Now().Add(1500 * time.Millisecond)
 	for !c.aborted && c.pos < len(c.sched) {
 		cur := c.sched[c.pos]
 		stretchOver := c.running == "" || c.running == proc || time.Since(c.runStart) > settleTime
@@ -180,17 +180,20 @@ func (c *controller) at(site string) {
 		}
 		if !(cur[0] == proc && cur[1] == ms) {
 			// is this process expected to pass this site at all (next, for it)?
-			found := false
+			found, any := false, false
 			for _, e := range c.sched[c.pos:] {
 				if e[0] == proc {
+					any = true
 					found = e[1] == ms
 					break
 				}
 			}
-			if !found {
+			if any && !found {
 				c.abort(fmt.Sprintf("%s reached %s, schedule expects %v next", proc, ms, cur))
 				return
 			}
+			// !any: the schedule (a prefix) says nothing more about this process: it waits here until
+			// the schedule has been played out
 		}
 		if time.Now().After(deadline) {
 			c.abort(fmt.Sprintf("%s waited too long at %s for %v", proc, ms, cur))
@@ -531,11 +534,17 @@ func runScenario(sc *Scenario) {
 			emit(map[string]any{"ev": "postclose", "m": i, "res": class(e)})
 		}
 		emit(map[string]any{"ev": "close2", "res": class(wd.w.Close())})
-		// the rotation goroutine must be gone
-		time.Sleep(2 * time.Millisecond)
-		buf := make([]byte, 1<<16)
-		n := runtime.Stack(buf, true)
-		emit(map[string]any{"ev": "goroutines", "rotator": strings.Contains(string(buf[:n]), "runRotate")})
+		// the rotation goroutine must be gone (give it up to 2 s to be scheduled and return)
+		buf := make([]byte, 1<<18)
+		rotator := true
+		for i := 0; i < 400 && rotator; i++ {
+			n := runtime.Stack(buf, true)
+			rotator = strings.Contains(string(buf[:n]), "runRotate")
+			if rotator {
+				time.Sleep(5 * time.Millisecond)
+			}
+		}
+		emit(map[string]any{"ev": "goroutines", "rotator": rotator})
 		if wd.fs != nil {
 			emit(map[string]any{"ev": "handles", "n": atomic.LoadInt64(&wd.fs.Handles)})
 		}
